@@ -182,3 +182,84 @@ def raw_view_sites(facts):
             if last in RAW_VIEW_CALLEES:
                 out.append(dict(fn=fn, block=bi, line=t["l"], callee=p, raw=raw, ga=t["f"].get("ga", "")))
     return out
+
+
+def mutator_signatures(facts):
+    """{method path: (adt, {field: ("const", v) | ("param", index)})} for the straight-line inherent `&mut self` methods of state
+    types that only store constants or their own parameters into fields of self (computed from the tree's own mutators)."""
+    cache = getattr(facts, "_mut_sigs", None)
+    if cache is not None:
+        return cache
+    from .prov import prov_of, strip
+    from .match import const_val
+    by_fn = {}
+    for w in field_stores(facts):
+        by_fn.setdefault(w["fn"].path, []).append(w)
+    out = {}
+    for path, ws in by_fn.items():
+        fn = ws[0]["fn"]
+        if fn.kind != "fn" or not fn.self_ty or fn.trait or not fn.sig or not fn.sig["in"] or not fn.sig["in"][0].startswith("&mut "):
+            continue
+        if any(bb["t"]["k"] == "switch" and not bb["c"] for bb in fn.blocks):
+            continue
+        if any(w["kind"] != "assign" or w["adt"] != fn.self_ty for w in ws):
+            continue
+        pv = prov_of(fn)
+        names = fn.param_names()
+        sig = {}
+        ok = True
+        for w in ws:
+            if not w["last"]:
+                continue
+            v = strip(pv._rvalue(w["rv"], w["block"], w["stmt"], 0))
+            if const_val(v) is not None:
+                sig[w["field"]] = ("const", const_val(v))
+            elif v[0] == "param" and v[1] in names:
+                sig[w["field"]] = ("param", names.index(v[1]))
+            else:
+                ok = False
+        if ok and sig:
+            out[path] = (fn.self_ty, sig)
+    facts._mut_sigs = out
+    return out
+
+
+def recognise_mutators(facts, fn):
+    """Direct stores of `fn` into fields of a state type that are, as a group, exactly what one of that type's mutators does
+    (same fields, same constants): [(method path, block of the last store, receiver term, {param index: stored term}, stores)].
+    A handler that spells a setter out is read as calling it."""
+    from .prov import prov_of, strip
+    from .match import const_val
+    pv = prov_of(fn)
+    groups = {}
+    for w in field_stores(facts):
+        if w["fn"] is fn and w["kind"] == "assign" and w["last"]:
+            groups.setdefault(w["adt"], []).append(w)
+    out = []
+    sigs = mutator_signatures(facts)
+    for adt, ws in groups.items():
+        left = list(ws)
+        for path, (madt, sig) in sorted(sigs.items(), key=lambda kv: -len(kv[1][1])):
+            if madt != adt or facts.fn(path) is fn:
+                continue
+            mine = [w for w in left if w["field"] in sig]
+            if {w["field"] for w in mine} != set(sig) or len(mine) != len(sig):
+                continue
+            args = {}
+            ok = True
+            for w in mine:
+                v = pv._rvalue(w["rv"], w["block"], w["stmt"], 0)
+                kind, x = sig[w["field"]]
+                if kind == "const":
+                    ok = ok and const_val(strip(v)) == x
+                else:
+                    if x in args and args[x] != v:
+                        ok = False
+                    args[x] = v
+            if not ok:
+                continue
+            st_ = fn.blocks[mine[-1]["block"]]["s"][mine[-1]["stmt"]]
+            recv = pv.local(st_["p"]["l"], mine[-1]["block"], mine[-1]["stmt"])
+            out.append((path, max(w["block"] for w in mine), recv, args, mine))
+            left = [w for w in left if w not in mine]
+    return out
